@@ -8,6 +8,10 @@ pub const ALPHABET: &[&str] = &[
     "kg", "min", "C", "[mode]", "\u{00A0}", "\u{000B}",
 ];
 
+/// characters that look innocent but are special for some routine (BOM, zero-width and Unicode spaces,
+/// line/paragraph separators, combining marks, NUL); inserted by `mutate` and before front matter
+pub const EXOTIC: &[&str] = &["\u{FEFF}", "\u{200B}", "\u{0085}", "\u{2028}", "\u{2029}", "\u{3000}", "\u{0301}", "\u{202E}", "\u{00AD}", "\u{0}", "\u{1680}", "\u{2003}"];
+
 pub fn soup(rng: &mut Rng, max_len: usize) -> String {
     let n = 1 + rng.below(max_len);
     let mut s = String::new();
@@ -120,6 +124,7 @@ pub fn block(rng: &mut Rng) -> String {
 
 pub fn recipe(rng: &mut Rng) -> String {
     let mut s = String::new();
+    if rng.chance(1, 40) { s.push_str(rng.pick_str(EXOTIC)); }
     if rng.chance(1, 8) {
         s.push_str(rng.pick_str(&["---\ntitle: x\nservings: 2\n---\n", "---\n---\n", "\n---\ntags: [a, b]\ntime: 1h\n---\n", "---\na: [\n---\n", "---\ntime: 10\nprep time: 5\n---\n"]));
     }
@@ -138,6 +143,7 @@ pub fn mutate(rng: &mut Rng, s: &str) -> String {
     if chars.is_empty() { return rng.pick_str(ALPHABET).to_string(); }
     let pos = rng.below(chars.len() + 1);
     let mut out: String = chars[..pos].iter().collect();
+    if rng.chance(1, 5) { out.push_str(rng.pick_str(EXOTIC)); out.extend(chars[pos..].iter()); return out; }
     match rng.below(3) {
         0 => { out.push_str(rng.pick_str(ALPHABET)); out.extend(chars[pos..].iter()); }
         1 => { out.extend(chars[(pos + 1).min(chars.len())..].iter()); }
